@@ -203,6 +203,32 @@ func c15Case(r *fw.Rand) (cs []tcue, a1, d1, a2, d2 int64, slopeKind string) {
 		}
 		cs[i] = tcue{s, e, fmt.Sprintf("t%d", i)}
 	}
+	if r.P(1, 5) {
+		// small whole-second values: a corrected boundary often coincides with another cue's original boundary
+		sl := fw.Pick(r, [][2]int64{{2, 1}, {1, 2}, {3, 2}, {1, 1}})
+		n = r.Range(2, 8)
+		cs = make([]tcue, n)
+		var t int64
+		for i := range cs {
+			t += r.I64n(3) * 1e9
+			e := t + r.I64n(4)*1e9
+			cs[i] = tcue{t, e, fmt.Sprintf("t%d", i)}
+			if r.Bool() {
+				t = e * sl[0] / sl[1] // the next cue starts where this one's end will land
+			} else {
+				t = e
+			}
+		}
+		a1, a2 = 0, int64(r.Range(1, 10))*1e9
+		d1 = 0
+		d2 = a2 * sl[0] / sl[1]
+		return cs, a1, d1, a2, d2, fmt.Sprintf("small %d/%d", sl[0], sl[1])
+	}
+	if r.P(1, 4) {
+		// very short cues (1 ns .. 1 ms) must be scaled like any other
+		k := r.Intn(n)
+		cs[k].E = cs[k].S + fw.Pick(r, []int64{1, 1000, 1000000, 999999, 1000001})
+	}
 	a1 = rnd()
 	switch r.Intn(4) {
 	case 0: // references as close as 1 ms
